@@ -60,6 +60,9 @@ PARTIAL = {
     'implementation only up to those thresholds: checked by the tie and the oracle (atol 2.5e-8*max), not a theorem',
     'normalized_with_setter_cleanup': 'normalized_idem_* and is_normal_of_normalized are about the generated formulas, '
     'before the zeroing of relatively tiny entries by the Cij setter',
+    'object_model': 'object_* theorems are about the Lean object model (state = one matrix; reads are functions of it); '
+    'that the class has no other state (caches, aliased arrays) is what the `seq` correspondence and the read-order / '
+    'set-sequence oracle check on every run, not a theorem about the Python object',
     'redundant_C66_within_isclose': 'a redundant C66 that differs from (C11-C12)/2 within np.isclose is accepted by the '
     'code and stored as given; rhombohedral_inputs_agree / system_invariant_rhombohedral assume exact equality',
 }
@@ -335,7 +338,10 @@ def _setter4(fn, var, target):
 
 def _setter_cij(fn):
     body = _body(fn)
-    _expect(body[0], "value = np.asarray(value, dtype='float64')", 'Cij setter')
+    # np.array (copy: the object owns its matrix) or np.asarray (the caller's float64 array becomes the state): the
+    # model is the same function of the values; the difference is observed by the oracle's aliasing clause
+    if ast.unparse(body[0]) != "value = np.array(value, dtype='float64')":
+        _expect(body[0], "value = np.asarray(value, dtype='float64')", 'Cij setter')
     if not (isinstance(body[1], ast.Assert) and ast.unparse(body[1].test) == 'value.shape == (6, 6)'):
         raise TranslationError('Cij setter: shape assertion missing')
     if not (isinstance(body[2], ast.Assert) and ast.unparse(body[2].test) == 'value.max() > 0.0'):
@@ -1204,8 +1210,18 @@ RULE = ('Cij inputs: the 21 symmetric basis matrices (index probing), random sym
         'out-of-tolerance asymmetric arrays; axes: the 24 proper signed permutations, rational rotations from '
         'integer quaternions, scaled rows, non-orthogonal and left-handed triples; every generated keyword set of '
         'the seven crystal systems and 36 isotropic pairs (with aliases) incl. sets that must raise; all '
-        'normalized_as targets and the three estimate styles.  distinct = distinct canonical driver line; '
-        'non-trivial = non-error case with a non-diagonal / non-identity input')
+        'normalized_as targets and the three estimate styles.  Unit systems: every tensor class is also presented '
+        'rescaled by exact powers of two 2^-40..2^40 (numbers ~1e-12..1e12; rescaling is exact in binary floating '
+        'point, so model and oracle stay exact) and every clause is evaluated at a tolerance relative to the '
+        "tensor's own largest entry.  Weak anisotropy: isotropic/cubic/hexagonal/tetragonal/rhombohedral/"
+        'orthorhombic tensors plus 1e-9..1e-2 (relative) of a general symmetric perturbation.  Rotations also by '
+        '1e-7.5..1e-1 rad about random axes.  SPD with condition number 1e2..1e5.  Objects: operation sequences on '
+        'ONE object (driver op `seq` = Lean `run`): every ordered pair and random permutations / repetitions of '
+        'the reads Cij Sij Cij9 Cijkl Sijkl bulk shear normalized_as is_normal transform str, the caller '
+        'overwriting every returned array / re-initialising every returned object, set -> reads -> slightly '
+        'different set (relative change 1e-7..1e-2, through each of the seven entry points) -> reads, refused '
+        'sets; each read compared with the same read on a fresh object.  distinct = distinct canonical driver '
+        'line; non-trivial = non-error case with a non-diagonal / non-identity input')
 ASSUMPTIONS = [
     'numpy.linalg.inv returns the inverse: the model takes the exact rational inverse (hypothesis C*S = 1 and S*C = 1 '
     'in the theorems); compared with rtol 1e-9*cond',
@@ -1374,9 +1390,18 @@ def _basis_matrices():
     return out
 
 
+def _shuffled(rng, d):
+    """the same keyword arguments in another order at the call site (keywords are named, not positional)"""
+    items = list(d.items())
+    rng.shuffle(items)
+    return dict(items)
+
+
 def _sym_consts(rng, keys, dy=True):
     """values for named constants: positive normal constants dominating the shear/cross ones"""
     vals = {}
+    keys = list(keys)
+    rng.shuffle(keys)
     for k in keys:
         i, j = int(k[1]), int(k[2])
         if i == j:
@@ -1604,7 +1629,7 @@ def correspond(ctx):
             ks = info['keys']
             if info['status'] == 'ok' and lam == 0 and ('nu' in ks and ({'C12', 'lambda'} & set(ks))):
                 continue    # (lambda, nu) = (0, 0) does not determine the material
-            vals = {k: float(tr[k]) for k in ks}
+            vals = _shuffled(rng, {k: float(tr[k]) for k in ks})
             r, e = _call(lambda: EC(**vals).Cij)
             line = _ctor_line(ctx, ks, vals)
             if line is None:
@@ -1643,6 +1668,8 @@ def correspond(ctx):
         ex = SCALE_EXPS[(it // 2) % len(SCALE_EXPS)] if it % 2 == 0 else rng.choice([0, 0, 7, -7])
         if it % 3 == 0:
             C, what = _spd_dyadic(rng, 2), 'spd'
+        elif it % 3 == 1 and (it // 3) % 2 == 0:
+            C, what = _near_symmetric(rng, kinds[it % len(kinds)], 0, dy=True), 'exact-' + kinds[it % len(kinds)]
         else:
             C = _near_symmetric(rng, kinds[it % len(kinds)], ANISO[(it // 3) % len(ANISO)], dy=True)
             what = 'near-' + kinds[it % len(kinds)]
@@ -1718,8 +1745,8 @@ def _correspond_sequence(ctx, rng, it):
             f, tk = (lambda: setattr(ec, 'Cij', V)), 'set cij ' + cm.frs(V)
         elif kind == 'named':
             sysname = rng.choice(['cubic', 'hexagonal', 'tetragonal', 'orthorhombic', 'monoclinic'])
-            vals = {k: cm.dyadic(rng, 4, 12, 3) if k[1] == k[2] else cm.dyadic(rng, -1.5, 1.5, 3)
-                    for k in SYS_KEYS[sysname]}
+            vals = _shuffled(rng, {k: cm.dyadic(rng, 4, 12, 3) if k[1] == k[2] else cm.dyadic(rng, -1.5, 1.5, 3)
+                                   for k in SYS_KEYS[sysname]})
             tk = 'set named ' + _ctor_line(ctx, list(vals), vals)[5:]
             f = lambda: ec.__init__(**vals)          # noqa: E731
             Cn, en = _call(lambda: EC(**vals).Cij)
@@ -1874,6 +1901,45 @@ SYS_ROTS = {
 }
 
 
+def _where(tb):
+    import traceback
+    fr = [f for f in traceback.extract_tb(tb) if 'atomman' in f.filename and 'harness' not in f.filename]
+    return f' at {fr[-1].filename.split("atomman/", 1)[-1]}:{fr[-1].lineno} in {fr[-1].name}' if fr else ''
+
+
+def _clause(op):
+    """an exception escaping a clause evaluation comes from the implementation (the harness is quiet on the unchanged
+    tree): it is reported as an observation with the input at hand, never a harness crash"""
+    def deco(f):
+        import functools
+
+        @functools.wraps(f)
+        def g(ctx, *a, **k):
+            try:
+                return f(ctx, *a, **k)
+            except cm.InfraError:
+                raise
+            except Exception as e:  # noqa
+                info = next((x for x in list(a) + list(k.values()) if isinstance(x, dict)), {})
+                tag = next((x for x in reversed(a) if isinstance(x, str)), op)
+                ctx.violate(f'raises:{op}', f'{tag}: evaluating the {op} clauses raised {type(e).__name__}: {e}'
+                            + _where(e.__traceback__), {'op': op, **info})
+        return g
+    return deco
+
+
+def _new(ctx, info, tag, **kw):
+    """ElasticConstants(**kw) for an admissible input; a refusal is a violation with the input, not a crash"""
+    import atomman as am
+    try:
+        return am.ElasticConstants(**kw)
+    except Exception as e:  # noqa
+        ctx.violate('ctor:raises', f'{tag}: ElasticConstants({", ".join(kw)}=...) raised {type(e).__name__}: {e}'
+                    + _where(e.__traceback__), {'op': 'representations', **info})
+        return None
+
+
+@_clause('representations')
 def _check_tensor_clauses(ctx, ec, info, tag):
     """representations of ONE object: index symmetries, round trips, C:S = symmetric identity."""
     np = _np()
@@ -1882,13 +1948,17 @@ def _check_tensor_clauses(ctx, ec, info, tag):
     C4, C9 = ec.Cijkl, ec.Cij9
     ctx.stats.case('oracle:representations', (tag, cm.frs(c)))
     bad = []
+    # a matrix that came in through Cij / Cij9 / Cijkl / named constants is stored exactly symmetric; one that was
+    # obtained by a float inversion (Sij=, Sijkl=) is symmetric up to the rounding of that inversion only
+    sym_exact = bool(np.array_equal(c, c.T))
+    sym_tol = 0.0 if sym_exact else 1e-13 * float(np.linalg.cond(c)) * float(np.abs(c).max())
     for i, j, k, l in _IDX4:
         want = c[_VOIGT[i, j], _VOIGT[k, l]]
         if C4[i, j, k, l] != want:
             bad.append(f'Cijkl[{i},{j},{k},{l}]={C4[i, j, k, l]} but Cij[{_VOIGT[i, j]},{_VOIGT[k, l]}]={want}')
         if C4[i, j, k, l] != C4[j, i, k, l] or C4[i, j, k, l] != C4[i, j, l, k]:
             bad.append(f'minor symmetry fails at {i}{j}{k}{l}')
-        if C4[i, j, k, l] != C4[k, l, i, j]:
+        if C4[i, j, k, l] != C4[k, l, i, j] and (sym_exact or abs(C4[i, j, k, l] - C4[k, l, i, j]) > sym_tol):
             bad.append(f'major symmetry fails at {i}{j}{k}{l}')
     nine = [(0, 0), (1, 1), (2, 2), (1, 2), (0, 2), (0, 1), (2, 1), (2, 0), (1, 0)]
     for p, (i, j) in enumerate(nine):
@@ -1936,7 +2006,10 @@ def _rot_tol(mx):
     return 2.5e-8 * mx
 
 
+@_clause('rotation')
 def _check_rotation_clauses(ctx, ec, R, R2, eps, info, tag):
+    if ec is None:
+        return
     np = _np()
     c = ec.Cij
     mx = float(np.abs(c).max())
@@ -2030,7 +2103,7 @@ def _system_consts(rng, sysname):
             vals[k] = rng.uniform(-1.0, 1.0)
     if sysname.startswith('hexagonal') or sysname.startswith('rhombohedral'):
         vals['C12'] = min(vals['C12'], vals['C11'] - 2.0)
-    return vals
+    return _shuffled(rng, vals)
 
 
 # ---- unit systems, near-symmetric tensors, small rotations, ill-conditioned tensors -----------------------
@@ -2099,6 +2172,8 @@ def _near_symmetric(rng, kind, eps, dy=False):
     for a in range(6):
         for b in range(a, 6):
             P[a, b] = P[b, a] = val(-1, 1)
+    if eps == 0:
+        return base          # the exact crystal tensor (structural zeros)
     e = 2.0 ** round(math.log2(eps)) if dy else eps
     return base + e * float(base.max()) * P
 
@@ -2139,11 +2214,18 @@ def _read(ec, name):
         if name in ('bulk', 'shear'):
             return np.array([getattr(ec, name)(s) for s in ('Voigt', 'Reuss', 'Hill')] + [getattr(ec, name)()])
         if name == 'normalized_as':
-            return np.array([ec.normalized_as(s).Cij for s in SYSTEMS])
+            objs = [ec.normalized_as(s) for s in SYSTEMS]
+            out = np.array([o.Cij for o in objs])
+            for o in objs:          # the caller goes on to use the returned objects for something else
+                o.__init__(C11=1.0, C12=0.5, C44=0.125)
+            return out
         if name == 'is_normal':
             return np.array([1.0 if ec.is_normal(s) else 0.0 for s in SYSTEMS])
         if name == 'transform':
-            return ec.transform(np.array(_READ_AXES)).Cij
+            o = ec.transform(np.array(_READ_AXES))
+            out = o.Cij
+            o.__init__(C11=1.0, C12=0.5, C44=0.125)
+            return out
         if name == 'str':
             return np.array([float(len(str(ec)))])
         raise KeyError(name)
@@ -2165,6 +2247,7 @@ def _scribble(x):
         x[...] = -7.25
 
 
+@_clause('readorder')
 def _check_read_order(ctx, make, orders, info, tag, scribble=True):
     """`make()` builds a fresh object.  Reference: every read on its own fresh object.  Then each order in `orders`
     is performed on ONE object; every read must equal the reference (the computation is deterministic, so the
@@ -2193,17 +2276,23 @@ def _check_read_order(ctx, make, orders, info, tag, scribble=True):
 SETTER_KINDS = ['Cij', 'Sij', 'Cij9', 'Cijkl', 'Sijkl', 'named', 'init']
 
 
-def _apply_setter(ec, kind, donor, named=None):
-    """put the tensor of `donor` (a fresh object) into `ec` through one of the public entry points"""
+def _apply_setter(ec, kind, donor, named=None, reuse=False):
+    """put the tensor of `donor` (a fresh object) into `ec` through one of the public entry points; with `reuse` the
+    caller goes on to use its own array for something else afterwards (the object must own its state)"""
     if kind == 'named':
         meth, kw = named
         getattr(ec, meth)(**kw)
-    elif kind == 'init':
-        ec.__init__(Cij=donor.Cij)
+        return
+    arr = donor.Cij if kind == 'init' else getattr(donor, kind)
+    if kind == 'init':
+        ec.__init__(Cij=arr)
     else:
-        setattr(ec, kind, getattr(donor, kind))
+        setattr(ec, kind, arr)
+    if reuse:
+        _scribble(arr)
 
 
+@_clause('setsequence')
 def _check_set_sequence(ctx, rng, C1, C2, info, tag, named=None, fixed=None):
     """construct with C1 -> some reads -> set the slightly different C2 through a random entry point -> all reads in
     a random order must equal those of a fresh object that got C2 the same way; a refused setter changes nothing."""
@@ -2221,10 +2310,12 @@ def _check_set_sequence(ctx, rng, C1, C2, info, tag, named=None, fixed=None):
     donor = EC(Cij=C2.copy())
     fresh = EC()
     _, e0 = _call(lambda: _apply_setter(fresh, kind, donor, named))
-    ec = EC(Cij=C1.copy())
+    V1 = C1.copy()
+    ec = EC(Cij=V1)
+    _scribble(V1)
     for nm in pre:
         _scribble(_read(ec, nm))
-    _, e1 = _call(lambda: _apply_setter(ec, kind, EC(Cij=C2.copy()), named))
+    _, e1 = _call(lambda: _apply_setter(ec, kind, EC(Cij=C2.copy()), named, reuse=True))
     if e0 != e1:
         ctx.violate(f'state:setter:{kind}', f'{tag}: setting through {kind} on a used object gives {e1}, on a fresh one {e0}', rep)
         return
@@ -2238,12 +2329,16 @@ def _check_set_sequence(ctx, rng, C1, C2, info, tag, named=None, fixed=None):
         want = _read(f2, nm)
         got = _read(ec, nm)
         if not _same_obs(got, want):
-            what = (f'after construction from C1, reads {pre} and then setting C2 through {kind}'
-                    if e0 is None else f'after a REFUSED set through {kind} ({e0})')
+            what = (f'after construction from C1, reads {pre} and then setting C2 through {kind} (the caller reused '
+                    f'its input array afterwards)' if e0 is None else f'after a REFUSED set through {kind} ({e0})')
             ctx.violate(f'state:stale:{nm}', f'{tag}: .{nm} {what} differs from a fresh object '
                         f'(reads before it: {post[:k]})', rep)
             return
         _scribble(got)
+    # the object that went through the sequence satisfies the representation clauses on its own (exact oracle): a
+    # comparison with a fresh object alone would not notice state shared between objects (class-level memo tables)
+    if np.any(ec.Cij):
+        _check_tensor_clauses(ctx, ec, {'Cij': ec.Cij.tolist()}, f'{tag}: object after set through {kind}')
 
 
 def search(ctx, broken):
@@ -2263,7 +2358,9 @@ def search(ctx, broken):
                 a_, b_ = rng.sample(range(6), 2)
                 C[a_, b_] = C[b_, a_] = rng.choice([1e-7, 1e-6, 1e-5, 1e-3, -1e-6, -1e-4]) * C.max() * rng.uniform(1, 2)
         C0 = C.copy()
-        ec = EC(Cij=C.copy())
+        ec = _new(ctx, {'Cij': C0.tolist()}, 'random SPD', Cij=C.copy())
+        if ec is None:
+            continue
         # Cij -> object -> Cij: only entries below 1e-9 of the maximum may be altered (zeroed)
         keep = np.abs(C0 / C0.max()) > 1e-9 * (1 + 1e-6)
         if not np.array_equal(ec.Cij[keep], C0[keep]) or np.any(ec.Cij[~keep] != 0.0):
@@ -2276,8 +2373,8 @@ def search(ctx, broken):
     # ---- rotations ---------------------------------------------------------------------------
     for it in range(ctx.n(40, 400) * big):
         C = _spd_float(rng, rng.choice([1.0, 160.2176621])) if it % 2 else _spd_dyadic(rng, 3)
-        _check_rotation_clauses(ctx, EC(Cij=C), _rand_rotation(rng), _rand_rotation(rng), _rand_strain(rng),
-                                {'Cij': C.tolist()}, 'random SPD')
+        _check_rotation_clauses(ctx, _new(ctx, {'Cij': C.tolist()}, 'random SPD', Cij=C.copy()), _rand_rotation(rng),
+                                _rand_rotation(rng), _rand_strain(rng), {'Cij': C.tolist()}, 'random SPD')
     # ---- crystal systems: representation clauses + invariance under the generating rotations ---------
     rots = _gen_rotations()
     for it in range(ctx.n(8, 80) * big):
@@ -2324,6 +2421,7 @@ def search(ctx, broken):
                     if 'C15' not in vals:
                         alts.append({**vals, 'C15': 0.0})
                 for alt in alts:
+                    alt = _shuffled(rng, alt)
                     ctx.stats.case('oracle:alt-inputs', (sysname, tuple(sorted(alt))))
                     r, e = _call(lambda: EC(**alt).Cij)
                     if e is not None or not np.allclose(r, c, rtol=1e-12, atol=1e-12 * mx):
@@ -2332,18 +2430,23 @@ def search(ctx, broken):
                                     f'tensor given as {sorted(vals)}: {d}', {'op': 'alt', 'kwargs': vals, 'alt': alt})
             # normalising a tensor of the system to that system changes nothing; normalisation is idempotent
             target = sysname.rstrip('6')
-            if True:
-                n1 = ec.normalized_as(target)
-                if not np.allclose(n1.Cij, c, rtol=1e-12, atol=1e-9 * mx):
-                    ctx.violate(f'normalized:fixes:{target}', f'normalized_as({target!r}) changes a {sysname} tensor '
-                                f'(max diff {np.abs(n1.Cij - c).max():.3e})', {'op': 'system', **info})
-                if not ec.is_normal(target):
-                    ctx.violate(f'is_normal:{target}', f'is_normal({target!r}) is False on a {sysname} tensor',
-                                {'op': 'system', **info})
+            n1c, en = _call(lambda: ec.normalized_as(target).Cij)
+            if en is not None:
+                ctx.violate(f'normalized:raises:{target}', f'normalized_as({target!r}) of a {sysname} tensor: {en}',
+                            {'op': 'system', **info})
+            elif not np.allclose(n1c, c, rtol=1e-12, atol=1e-9 * mx):
+                ctx.violate(f'normalized:fixes:{target}', f'normalized_as({target!r}) changes a {sysname} tensor '
+                            f'(max diff {np.abs(n1c - c).max():.3e})', {'op': 'system', **info})
+            isn, en = _call(lambda: ec.is_normal(target))
+            if en is None and not isn:
+                ctx.violate(f'is_normal:{target}', f'is_normal({target!r}) is False on a {sysname} tensor',
+                            {'op': 'system', **info})
     # ---- normalisation is idempotent on arbitrary tensors ------------------------------------------
     for it in range(ctx.n(40, 400) * big):
         C = _spd_float(rng, rng.choice([1.0, 160.2176621])) if it % 2 else _spd_dyadic(rng, 3)
-        ec = EC(Cij=C)
+        ec = _new(ctx, {'Cij': C.tolist()}, 'random SPD', Cij=C.copy())
+        if ec is None:
+            continue
         cond = float(np.linalg.cond(C))
         mx = float(np.abs(C).max())
         for target in SYSTEMS:
@@ -2351,6 +2454,7 @@ def search(ctx, broken):
             try:
                 n1 = ec.normalized_as(target)
                 n2 = n1.normalized_as(target)
+                n1.is_normal(target)
             except Exception as e:  # noqa
                 ctx.violate(f'normalized:raises:{target}', f'normalized_as({target!r}) raised {type(e).__name__}: {e}',
                             {'op': 'normalized', 'Cij': C.tolist(), 'system': target})
@@ -2384,7 +2488,7 @@ def search(ctx, broken):
                 continue
             if lam == 0 and 'nu' in pair and ({'C12', 'lambda'} & set(pair)):
                 continue         # (lambda, nu) = (0, 0): the pair does not fix the material
-            vals = {k: float(tr[k]) for k in pair}
+            vals = _shuffled(rng, {k: float(tr[k]) for k in pair})
             ctx.stats.case('oracle:iso-pair', (pair, str(lam), str(mu)),
                            sample={'op': 'iso', 'kwargs': vals, 'lambda': float(lam), 'mu': float(mu)})
             r, e = _call(lambda: EC(**vals).Cij)
@@ -2435,14 +2539,41 @@ def _search_scales(ctx, rng, big):
         sc = 2.0 ** rng.choice([0, 0, 0, 7, -7, -13, 37])
         C = _near_symmetric(rng, k, eps) * sc
         R = _rand_rotation(rng) if n % 3 else _small_rotation(rng, 10.0 ** rng.uniform(-7, -2))
-        _check_rotation_clauses(ctx, EC(Cij=C.copy()), R, _rand_rotation(rng), _rand_strain(rng),
+        _check_rotation_clauses(ctx, _new(ctx, {'Cij': C.tolist()}, f'nearly {k}', Cij=C.copy()), R,
+                                _rand_rotation(rng), _rand_strain(rng),
                                 {'Cij': C.tolist(), 'kind': k, 'eps': eps}, f'nearly {k} (eps {eps:.1e})')
     # (c) small rotations of strongly anisotropic tensors
     for n in range(ctx.n(8, 100) * big):
         C = _spd_float(rng, rng.choice([1.0, 160.2176621]))
         ang = 10.0 ** rng.uniform(-7.5, -1)
-        _check_rotation_clauses(ctx, EC(Cij=C.copy()), _small_rotation(rng, ang), _small_rotation(rng, ang * 3),
+        _check_rotation_clauses(ctx, _new(ctx, {'Cij': C.tolist()}, 'SPD', Cij=C.copy()), _small_rotation(rng, ang),
+                                _small_rotation(rng, ang * 3),
                                 _rand_strain(rng), {'Cij': C.tolist(), 'angle': ang}, f'rotation by {ang:.1e} rad')
+    # (c') crystal directions: integer vectors of different lengths, given as nested python lists
+    for n in range(ctx.n(10, 100) * big):
+        while True:
+            a, b, c, d = (rng.randint(-3, 3) for _ in range(4))
+            if (b or c or d) and (a or (b and c) or (b and d) or (c and d)):
+                break
+        Ri = [[a * a + b * b - c * c - d * d, 2 * (b * c - a * d), 2 * (b * d + a * c)],
+              [2 * (b * c + a * d), a * a - b * b + c * c - d * d, 2 * (c * d - a * b)],
+              [2 * (b * d - a * c), 2 * (c * d + a * b), a * a - b * b - c * c + d * d]]
+        Ri = [[x * m for x in row] for row, m in zip(Ri, (1, rng.choice([1, 2]), rng.choice([1, 3])))]
+        C = _spd_float(rng, rng.choice([1.0, 160.2176621]))
+        ec = _new(ctx, {'Cij': C.tolist()}, 'SPD', Cij=C.copy())
+        if ec is None:
+            continue
+        Rf = np.array(Ri, dtype=float)
+        Rf = Rf / np.linalg.norm(Rf, axis=1)[:, None]
+        ctx.stats.case('oracle:int-axes', (str(Ri), cm.frs(C)), sample={'op': 'intaxes', 'axes': Ri})
+        r1, e1 = _call(lambda: ec.transform(Ri).Cij)
+        r2, e2 = _call(lambda: ec.transform(Rf).Cij)
+        mx = float(np.abs(C).max())
+        if e1 is not None or e2 is not None or not np.allclose(r1, r2, rtol=1e-9, atol=_rot_tol(mx)):
+            ctx.violate('transform:int-axes', f'transform with the integer direction vectors {Ri} '
+                        f'({e1 or "ok"}) differs from transform with their unit vectors ({e2 or "ok"})',
+                        {'op': 'rotation', 'Cij': C.tolist(), 'axes': Rf.tolist(), 'axes2': np.eye(3).tolist(),
+                         'int_axes': Ri})
     # (d) ill-conditioned tensors (cond 1e2 .. 1e5)
     for n in range(ctx.n(8, 100) * big):
         cond = 10.0 ** rng.uniform(2, 5)
@@ -2452,8 +2583,10 @@ def _search_scales(ctx, rng, big):
             continue
         _check_tensor_clauses(ctx, ec, {'Cij': C.tolist()}, f'SPD with cond {cond:.1e}')
     # (e) crystal systems and modulus pairs in other unit systems
-    for n in range(ctx.n(6, 60) * big):
-        ex = rng.choice(SCALE_EXPS)
+    for n in range(ctx.n(2, 12) * len(SYS_KEYS) * big):
+        # every system in a small-number unit system (compliances >= 1e9: structural zeros of the float inverse
+        # carry rounding noise far above any absolute tolerance) and at another scale of the sweep
+        ex = rng.choice([-40, -36, -33, -30]) if (n // len(SYS_KEYS)) % 2 == 0 else rng.choice(SCALE_EXPS)
         sysname = list(SYS_KEYS)[n % len(SYS_KEYS)]
         vals = {k: v * 2.0 ** ex for k, v in _system_consts(rng, sysname).items()}
         ec, e = _call(lambda: EC(**vals))
@@ -2480,6 +2613,23 @@ def _search_scales(ctx, rng, big):
             if e is not None or not np.allclose(n1.Cij, c, rtol=1e-12, atol=1e-9 * mx):
                 ctx.violate(f'normalized:fixes:{target}', f'normalized_as({target!r}) changes a {sysname} tensor '
                             f'(* 2^{ex}): {e or np.abs(n1.Cij - c).max()}', {'op': 'system', **info})
+    # (e') compliance round trips of the systems whose float inverse has noisy structural zeros, in unit systems with
+    # small stiffness numbers (large compliances) — and large ones
+    for n in range(ctx.n(32, 320) * big):
+        sysname = ['rhombohedral', 'tetragonal', 'monoclinic', 'rhombohedral6'][n % 4]
+        ex = [-40, -37, -34, -31, -28, 20, 30, 40][(n // 4) % 8]
+        vals = {k: v * 2.0 ** ex for k, v in _system_consts(rng, sysname).items()}
+        ec, e = _call(lambda: EC(**vals))
+        if e is not None:
+            continue
+        c = ec.Cij
+        cond = float(np.linalg.cond(c))
+        ctx.stats.case('oracle:compliance-roundtrip', (sysname, ex, cm.frs(c)))
+        for nm in ('Sijkl', 'Sij'):
+            r, e = _call(lambda: EC(**{nm: getattr(ec, nm)}).Cij)
+            if e is not None or not np.allclose(r, c, rtol=1e-10 * cond, atol=2e-9 * float(np.abs(c).max())):
+                ctx.violate(f'roundtrip:{nm}', f'{sysname} * 2^{ex}: ElasticConstants({nm}=ec.{nm}).Cij != ec.Cij ({e})',
+                            {'op': 'representations', 'system': sysname, 'kwargs': vals})
     names = ['C11', 'C12', 'C44', 'E', 'nu', 'K']
     for n in range(ctx.n(6, 60) * big):
         ex = rng.choice(SCALE_EXPS)
@@ -2489,7 +2639,7 @@ def _search_scales(ctx, rng, big):
         want = np.array([[float(x) for x in r] for r in _iso_matrix(lam, mu)])
         nu = float(tr['nu'])
         for pair in itertools.combinations(names, 2):
-            vals = {k: float(tr[k]) for k in pair}
+            vals = _shuffled(rng, {k: float(tr[k]) for k in pair})
             ctx.stats.case('oracle:iso-pair', (pair, str(lam), str(mu)))
             r, e = _call(lambda: EC(**vals).Cij)
             rtol = 1e-9 / (1 - 2 * nu) ** 2 if 'E' in pair else 1e-11 / (1 - 2 * nu)
@@ -2551,6 +2701,7 @@ def _search_objects(ctx, rng, big):
         _check_refused_set(ctx, rng, C1, {'Cij': C1.tolist()})
 
 
+@_clause('refusedset')
 def _check_refused_set(ctx, rng, C1, info, fixed=None):
     """a setter that raises must leave the object as it was"""
     np = _np()
@@ -2612,6 +2763,12 @@ def replay(ctx, payload):
             _check_tensor_clauses(ctx, am.ElasticConstants(Cij=np.array(r['Cij'])), {'Cij': r['Cij']}, 'replay')
         elif op == 'representations' and 'kwargs' in r:
             _check_tensor_clauses(ctx, am.ElasticConstants(**r['kwargs']), {'kwargs': r['kwargs']}, 'replay')
+        elif op == 'rotation' and 'int_axes' in r:
+            ec = am.ElasticConstants(Cij=np.array(r['Cij']))
+            a, b = ec.transform(r['int_axes']).Cij, ec.transform(np.array(r['axes'])).Cij
+            print('replay int axes: max diff', float(np.abs(a - b).max()))
+            if not np.allclose(a, b, rtol=1e-9, atol=_rot_tol(float(np.abs(ec.Cij).max()))):
+                ctx.violate('transform:int-axes', 'replayed case still fails', r)
         elif op == 'rotation':
             ec = am.ElasticConstants(Cij=np.array(r['Cij'])) if 'Cij' in r else am.ElasticConstants(**r['kwargs'])
             _check_rotation_clauses(ctx, ec, np.array(r['axes']), np.array(r['axes2']),
